@@ -251,6 +251,10 @@ def run(ck):
         elif is_ref_to(o.get("obj"), indecl):
             fl = open_flags(o)
             ck.ob("C08-O5", sitestr(fn, o), fl is not None and fl & 1 and not fl & 16, "the rotated file is read in binary mode" if (fl is not None and fl & 1 and not fl & 16) else "input opened with %s" % flagnames(fl), key="compressFile|input-mode")
+    ck.rule("C08-O8", "two sinks compress at the same time without sharing scratch state: no static variable written on the way from compressFile() (read buffer, running CRC, deflate output) "
+                      "holds anything but constants - the CRC table is the one static, filled from literals")
+    from rules.oth import shared_static_state
+    shared_static_state(ck, F, "C08-O8", "its own logger's mutex", roots=[S.m["compressFile"]], min_roots=1, what="compression path")
     ck.rule("C08-O7", "a size of the active file read before a rotation is not used after it (the daily check may rotate before the size check runs)")
     from rules.rfs import stale_size
     stale_size(ck, S, "C08-O7")
